@@ -321,10 +321,22 @@ class TNMR:
     def draw(self, rng):
         rank = rng.randint(1, 4)
         ext = rng.sample([2, 3, 4, 5, 6], rank) + [1] * (4 - rank)
-        return {"ext": ext, "trailer": rng.choice([0, 0, 7, 64])}
+        return {"ext": ext, "trailer": rng.choice([0, 0, 7, 64]), "dwell": self.draw_dwell(rng)}
+
+    # dwell times as spectrometers have them: decimal fractions of a second (not binary fractions), from 100 ns to seconds
+    DWELLS = [1e-7, 2e-7, 3e-6, 1e-5, 2.5e-5, 1e-3, 0.1, 0.3, 0.5, 2.0]
+
+    def draw_dwell(self, rng):
+        return [rng.choice(self.DWELLS) if rng.random() < 0.7 else round(10 ** rng.uniform(-7, 0), 9) for _ in range(4)]
 
     def systematic(self, rng):
-        return [{"ext": rng.sample([2, 3, 4, 5, 6], rank) + [1] * (4 - rank), "trailer": tr} for rank in (1, 2, 3, 4) for tr in (0, 7)]
+        out = [{"ext": rng.sample([2, 3, 4, 5, 6], rank) + [1] * (4 - rank), "trailer": tr} for rank in (1, 2, 3, 4) for tr in (0, 7)]
+        # every extent with every listed dwell time on the direct axis (and a rotation of the list on the others)
+        for e in (2, 3, 4, 5, 6, 7):
+            for k, dw in enumerate(self.DWELLS):
+                rot = self.DWELLS[k:] + self.DWELLS[:k]
+                out.append({"ext": [e, rng.choice([1, 2, 3]), 1, 1], "trailer": 0, "dwell": [dw, rot[1], rot[2], rot[3]]})
+        return out
 
     def layout(self, c):
         x, y, z, q = c["ext"]
@@ -338,7 +350,7 @@ class TNMR:
         hdr = bytearray(src[: 20 + 1024 + 8 + 4])
         st = 20
         hdr[st: st + 16] = struct.pack("<4i", *c["ext"])
-        hdr[st + 272: st + 304] = struct.pack("<4d", 0.5, 2.0, 0.25, 4.0)
+        hdr[st + 272: st + 304] = struct.pack("<4d", *c.get("dwell", [0.5, 2.0, 0.25, 4.0]))
         n = 1
         for e in c["ext"]:
             n *= e
@@ -350,7 +362,7 @@ class TNMR:
 
     def expect(self, c, raw):
         v = raw[..., 0].astype(float) + 1j * raw[..., 1].astype(float)
-        dw = [0.5, 2.0, 0.25, 4.0]
+        dw = c.get("dwell", [0.5, 2.0, 0.25, 4.0])
         keep = [k for k in range(4) if c["ext"][k] != 1]
         names = ["t2", "t1", "t3", "t4"]
         return np.squeeze(v), [names[k] for k in keep], [np.arange(c["ext"][k]) * dw[k] for k in keep]
